@@ -21,7 +21,7 @@ CLAIMED = {
  "C04": dict(level="exploration",
    text="Model-based testing of the real BackendReqHandler: every word up to depth 3 (quick) / 4 (thorough) over a 21-symbol reduced alphabet x {protocol features offered or not} is executed exhaustively, plus thousands of random histories (length <= 12) over all 44 request codes with generated bodies, NEED_REPLY flags and scripted handler outcomes; the bytes the server writes are compared frame by frame with a reference protocol model and a sentinel request proves exact consumption. Histories are an unbounded space, so bounded-exhaustive + random exploration is the level claimed.",
    note="Trusted: spec.rs (request table and layouts transcribed from the vhost-user specification), the protocol model in props/c04.rs. Stated tolerances: the SET_PROTOCOL_FEATURES that flips REPLY_ACK may or may not be acked; requests rejected before the handler may produce nothing or one non-zero ack; SET_LOG_BASE reply payload and the 4 padding bytes of the inflight description are spec-silent.",
-   technique="model-based (stateful) property testing: bounded-exhaustive + proptest histories vs. reference protocol model",
+   technique="model-based (stateful) property testing: bounded-exhaustive + proptest histories vs. reference protocol model; thorough tier adds a coverage-guided libFuzzer campaign over histories (fuzz/c04_hist, same model inside the target)",
    ref="DESIGN.md section 3, C04"),
  "C05": dict(level="exploration",
    text="Generated-input search on both levels named by the property: (a) the real BackendReqHandler is fed grammar-aware byte streams (valid messages of random codes with one mutator each on size/flags/code/body fields, truncation, extension, random tails, 0..=40 descriptors at byte 0 or a random byte, after a random negotiation prefix) and random byte strings; every handler invocation must be explained by a protocol-valid message (independent predicates) literally present in the sent bytes at increasing offsets, no call may panic. (b) a running daemon receives sequences of well-typed messages with adversarial 64-bit fields (regions at the top of the address space, unmappable sizes, ring addresses around region edges, indexes up to 255 and beyond); no thread may panic, the process must not crash (supervising parent turns a signal into a replayable violation).",
@@ -143,8 +143,8 @@ def main():
         "engines": [
             {"name": "vverif", "path": "/verif/harness", "serves_properties": sorted(CLAIMED.keys()),
              "kind_free_text": "Rust binary: proptest TestRunner (fixed seed from VERIF_SEED, shrinking, replay files) + exhaustive enumerators + reference models/oracles; one subcommand per property"},
-            {"name": "libfuzzer-targets", "path": "/verif/fuzz", "serves_properties": ["C05", "C06", "C20"],
-             "kind_free_text": "cargo-fuzz crate (libFuzzer, ASan, debug assertions): targets c05_stream, c06_reply, c06_bereq, c20_valid call the harness library's oracles (harness/src/fuzzing.rs); driven by tools/fuzz_campaign.py from ./check <Cxx> thorough; crash artifacts are re-executed strictly by vverif before anything is reported"},
+            {"name": "libfuzzer-targets", "path": "/verif/fuzz", "serves_properties": ["C04", "C05", "C06", "C20"],
+             "kind_free_text": "cargo-fuzz crate (libFuzzer, ASan, debug assertions): targets c04_hist, c05_stream, c06_reply, c06_bereq, c20_valid call the harness library's oracles (harness/src/fuzzing.rs); driven by tools/fuzz_campaign.py from ./check <Cxx> thorough; crash artifacts are re-executed strictly by vverif before anything is reported"},
         ],
         "checks": checks,
         "not_applicable": na,
